@@ -97,5 +97,7 @@ pub(crate) fn cbor_decode_datetime<'b, Ctx>(
     _ctx: &mut Ctx,
 ) -> Result<DateTime<FixedOffset>, minicbor::decode::Error> {
     let s: String = d.decode()?;
-    DateTime::parse_from_rfc3339(&s).map_err(|err| minicbor::decode::Error::custom(err))
+    //(the parser that also reads the signed years `to_rfc3339()` writes for years before 0 and after 9999)
+    s.parse::<DateTime<FixedOffset>>()
+        .map_err(|err| minicbor::decode::Error::custom(err))
 }
